@@ -125,6 +125,24 @@ LiveMutSids(mm) == UNION ({MutSidsOf(mm.h, mm.cells[i], 0) : i \in 1..Len(mm.cel
 \* documentation does not settle (is a value derived from it a fresh array or "like Go"?)
 ImmAliased(mm, a) == a.imm /\ a.sid \in LiveMutSids(mm)
 
+\* tables that some live mutable map value points to
+RECURSIVE MutMidsOf(_, _, _)
+MutMidsOf(h, v, d) ==
+  IF d > MaxDepth THEN {}
+  ELSE CASE v.k = "map" -> (IF v.imm THEN {} ELSE {v.mid})
+                           \cup LET t == TableOf(h, v) IN UNION {MutMidsOf(h, t[i].val, d + 1) : i \in 1..Len(t)}
+    [] v.k = "array" -> UNION {MutMidsOf(h, h.stores[v.sid][v.off + i], d + 1) : i \in 1..v.len}
+    [] v.k = "error" -> MutMidsOf(h, v.v, d + 1)
+    [] OTHER -> {}
+LiveMutMids(mm) == UNION ({MutMidsOf(mm.h, mm.cells[i], 0) : i \in 1..Len(mm.cells)}
+                          \cup {MutMidsOf(mm.h, mm.vals[i], 0) : i \in 1..Len(mm.vals)})
+\* C09 ghost: when a container becomes immutable and no mutable value shares its storage, its
+\* (shallow) contents are recorded; the invariant ImmStable says they never change afterwards
+Snapshot(mm, v) ==
+  IF v.k = "array" /\ v.sid \notin LiveMutSids(mm) THEN {[k |-> "array", sid |-> v.sid, off |-> v.off, len |-> v.len, snap |-> ArrElems(mm.h, v)]}
+  ELSE IF v.k = "map" /\ v.mid \notin LiveMutMids(mm) THEN {[k |-> "map", mid |-> v.mid, snap |-> TableOf(mm.h, v)]}
+  ELSE {}
+
 \* writing through store s could be observed through (or clobber) a store that may share with it
 Hazard(mm, s, asSource) ==
   LET ps == IF asSource THEN {p[2] : p \in {q \in mm.h.pairs : q[1] = s}} ELSE Partners(mm.h, s)
@@ -139,8 +157,7 @@ Append_(mm, a, items) ==
       L == Len(h.stores[a.sid])
       end == a.off + a.len
       n == Len(items)
-  IN IF ImmAliased(mm, a) THEN Excluded("immutable-alias")
-     ELSE IF end + n <= L
+  IN IF end + n <= L
      THEN \* spare positions of the known store are overwritten in place, result shares it
           IF a.imm THEN \* an immutable array never hands out its storage (C09)
             NewArr(h, ArrElems(h, a) \o items)
@@ -437,7 +454,9 @@ Steps(P, mm0) ==   \* the set of successor machine states
          IN IF \E i \in 1..n : Len(f.keys[i]) > MaxStringLen THEN {CompErr(mm, "string_limit", mm.cur)}
             ELSE {Push([Drop(mm, n) EXCEPT !.h = h2], VMap(FALSE, Len(h2.tables)))}
     [] f.k = "mkerr" -> {Push([Drop(mm, 1) EXCEPT !.h.nerr = @ + 1], VErr(mm.h.nerr + 1, top))}
-    [] f.k = "mkimm" -> {IF top.k \in {"array", "map"} THEN Push(Drop(mm, 1), [top EXCEPT !.imm = TRUE]) ELSE mm}
+    [] f.k = "mkimm" -> {IF top.k \in {"array", "map"}
+                         THEN LET m1 == Drop(mm, 1) IN Push([m1 EXCEPT !.imms = @ \cup Snapshot(m1, top)], [top EXCEPT !.imm = TRUE])
+                         ELSE mm}
     [] f.k = "un" -> {Res(Drop(mm, 1), UnOp(mm.h, f.op, top))}
     [] f.k = "bin" ->
          LET l == mm.vals[2] r == mm.vals[1] IN
@@ -448,8 +467,7 @@ Steps(P, mm0) ==   \* the set of successor machine states
     [] f.k = "orj" -> {IF IsFalsy(mm.h, top) THEN Sched(Drop(mm, 1), <<Ev(f.r)>>) ELSE mm}
     [] f.k = "condj" -> {Sched(Drop(mm, 1), <<Ev(IF IsFalsy(mm.h, top) THEN f.b ELSE f.a)>>)}
     [] f.k = "index" -> {Res(Drop(mm, 2), IndexGet(mm.h, mm.vals[2], mm.vals[1]))}
-    [] f.k = "slice" -> {IF mm.vals[3].k = "array" /\ ImmAliased(Drop(mm, 3), mm.vals[3]) THEN Excl(mm, "immutable-alias")
-                         ELSE Res(Drop(mm, 3), SliceOf(mm.h, mm.vals[3], mm.vals[2], mm.vals[1]))}
+    [] f.k = "slice" -> {Res(Drop(mm, 3), SliceOf(mm.h, mm.vals[3], mm.vals[2], mm.vals[1]))}
     [] f.k = "call" -> {DoCall(P, mm, f)}
     [] f.k = "doret" -> {DoReturn(Drop(mm, 1), top)}
     [] f.k = "fallret" -> {DoReturn(mm, VUndef)}
@@ -512,7 +530,7 @@ Start(P) ==
                                IN addInputs(BindFresh([mm EXCEPT !.h = iv.h], r[1], iv.v), i + 1)
       m0 == [ctl |-> <<Ex(P.root)>>, vals |-> <<>>, env |-> 0, envs |-> <<>>, cells |-> <<>>, h |-> EmptyHeap,
              fd |-> 0, decl |-> <<>>, cur |-> 0, calls |-> <<>>, out |-> [k |-> "running"], steps |-> 0,
-             modtop |-> FALSE, br |-> 0]
+             modtop |-> FALSE, br |-> 0, imms |-> {}]
   IN addInputs(m0, 1)
 
 \* names bound at the root of the global scope, with their reified final values
@@ -546,5 +564,8 @@ EmitOutcome == Done(m) => PrintT(<<"OUT", ToJson([id |-> Progs[pi].id, o |-> Out
 
 \* Invariants of the machine itself
 EnvForest == \A e \in 1..Len(m.envs) : m.envs[e].p < e
+ImmStable == \A r \in m.imms :
+                IF r.k = "array" THEN [i \in 1..r.len |-> m.h.stores[r.sid][r.off + i]] = r.snap
+                ELSE m.h.tables[r.mid] = r.snap
 ValsSane == Done(m) /\ m.out.k = "running" => Len(m.vals) = 0
 =============================================================================
